@@ -154,7 +154,11 @@ W0 == [use   |-> [x \in All |-> Z],
        held  |-> [x \in All |-> 0],        \* ghost ledger: memory reserved through handle x and not released
        proc  |-> [t \in ThreadIds |-> Idle],
        pend  |-> [t \in ThreadIds |-> [s \in Named |-> Z]],       \* ghost: net effect of t's call in flight
-       pendc |-> [t \in ThreadIds |-> [b \in DOMAIN Cap |-> 0]]]
+       pendc |-> [t \in ThreadIds |-> [b \in DOMAIN Cap |-> 0]],
+       \* ghost (RetryGhost): endpoints from which an OpenConnection was refused by a scope limit after the
+       \* connLimiter had admitted it; like obj.rf it only splits graph nodes, so that every later call is
+       \* also walked "after such a refusal" (the limiter's counters are state the refusal path touches)
+       rfo   |-> {}]
 
 IsDone(ww, x) == x \in ObjIds /\ ww.obj[x].st = "done"
 RECURSIVE Chain(_, _)
@@ -390,7 +394,9 @@ Exec1(ww, t) ==
             LET e == IF st.err = "dyn" THEN pr.err ELSE st.err
                 w0 == ApplyFin(ww, st.fin)
                 w1 == IF RetryGhost /\ e = "limit" /\ pr.call.name \in {"setpeer", "setprotocol", "setservice"}
-                      THEN [w0 EXCEPT !.obj[pr.call.h].rf = @ \cup {pr.call.name}] ELSE w0
+                      THEN [w0 EXCEPT !.obj[pr.call.h].rf = @ \cup {pr.call.name}]
+                      ELSE IF RetryGhost /\ e = "limit" /\ pr.call.name = "openconn" /\ EpIP[pr.call.ep]
+                      THEN [w0 EXCEPT !.rfo = @ \cup {pr.call.ep}] ELSE w0
             IN [w |-> [w1 EXCEPT !.proc[t] = Idle, !.pend[t] = [s \in Named |-> Z],
                                  !.pendc[t] = [b \in DOMAIN Cap |-> 0]],
                 done |-> TRUE, err |-> e]
@@ -575,6 +581,7 @@ Zero == (Quiet(w) /\ OpenObjs(w, ObjIds) = {} /\ \A x \in All : w.held[x] = 0)
           => (\A x \in All : w.use[x] = Z) /\ (\A b \in DOMAIN Cap : w.cnt[b] = 0)
 
 \* AllOrNothing (sequential mode): a refused call changes nothing that is observable
+\* (the ghosts rf / rfo are not observable)
 Observable(ww) == <<ww.use, ww.cnt, ww.held, [o \in ObjIds |-> [ww.obj[o] EXCEPT !.edges = <<>>, !.rf = {}]]>>
 AllOrNothing == [][(Sequential /\ op'.name # "gc" /\ op'.err # "nil") => Observable(w') = Observable(w)]_vars
 \* memory granted at priority p leaves every charged scope within limit*(1+p)/256
